@@ -306,6 +306,44 @@ func (c *C14Case) Run() string {
 			}
 		}
 	}
+	// the decoded tensor owns its elements: whatever happens to the bytes afterwards does not reach it
+	if c.Format == "gob" || c.Format == "pb" || c.Format == "fb" {
+		for i := range enc {
+			enc[i] ^= 0xA5
+		}
+		if m := compareAt(dec, exp, bitEqVal); m != "" {
+			return desc + ": after the caller overwrote the encoded bytes the decoded tensor changed: " + m
+		}
+		for i := range enc {
+			enc[i] ^= 0xA5
+		}
+	}
+	// a stream holds what follows as well: decoding one tensor consumes exactly its own bytes
+	if c.Format == "npy" && c.A.Mask == nil {
+		two := append(append([]byte{}, enc...), enc...)
+		rd := c14Reader(two, c.Reader)
+		first, second := new(tensor.Dense), new(tensor.Dense)
+		var e1, e2 error
+		if p := try(func() { e1 = first.ReadNpy(rd); e2 = second.ReadNpy(rd) }); p != "" {
+			return desc + ": reading two arrays written back to back panicked: " + p
+		}
+		if e1 != nil || e2 != nil {
+			return desc + fmt.Sprintf(": two arrays written back to back: first %v, second %v", e1, e2)
+		}
+		if m := c14Content(second, "npy", d, want); m != "" {
+			return desc + ": the second of two arrays written back to back: " + m
+		}
+	}
+	// options of one call do not stick: a CSV read without an element type yields float64
+	if c.Format == "csv" && d.Name != "float64" {
+		plain := new(tensor.Dense)
+		if err := plain.ReadCSV(bytes.NewReader([]byte("1.5,2\n3,4\n"))); err != nil {
+			return desc + ": afterwards ReadCSV of a plain numeric file without options failed: " + err.Error()
+		}
+		if plain.Dtype() != tensor.Float64 {
+			return desc + fmt.Sprintf(": afterwards ReadCSV without options yields element type %v (the As() of the previous call stuck)", plain.Dtype())
+		}
+	}
 	if otherEnc != nil {
 		var odec *tensor.Dense
 		var oerr error
